@@ -16,7 +16,11 @@ import time
 
 ROOT = os.path.dirname(os.path.dirname(os.path.abspath(__file__)))
 REPO = os.environ.get("VERIF_REPO", "/repo")
-BUILD = os.path.join(ROOT, "build")
+# VERIF_BUILD: separate build tree for scratch-tree (mutation) runs, so that they neither disturb
+# nor are disturbed by checks of /repo running at the same time. Registered commands never set it.
+BUILD = os.environ.get("VERIF_BUILD") or os.path.join(ROOT, "build")
+EVIDENCE_DIR = os.path.join(ROOT, "evidence") if BUILD == os.path.join(ROOT, "build") \
+    and REPO == "/repo" else os.path.join(BUILD, "evidence")
 COQSRC = os.path.join(ROOT, "coq")
 COQB = os.path.join(BUILD, "coq")
 PY = "/venv/bin/python"
@@ -464,13 +468,13 @@ def case_hash(case):
 
 
 def write_evidence(pid, tier, seed, coverage, assumptions, wall, violations):
-    os.makedirs(os.path.join(ROOT, "evidence"), exist_ok=True)
+    os.makedirs(EVIDENCE_DIR, exist_ok=True)
     ev = {
         "property_id": pid, "tier": tier, "seed": int(seed), "level": "proof",
         "coverage": coverage, "assumptions": assumptions, "wall_s": round(wall, 2),
         "violations": int(violations),
     }
-    path = os.path.join(ROOT, "evidence", pid + ".json")
+    path = os.path.join(EVIDENCE_DIR, pid + ".json")
     tmp = path + ".tmp%d" % os.getpid()
     with open(tmp, "w") as f:
         json.dump(ev, f, indent=1, default=str)
